@@ -18,7 +18,7 @@ enum {
   K_FSUB = 6, K_CAS_OK = 7, K_CAS_FAIL = 8, K_RELAX = 9, K_FENCE = 10,
   K_DCAS_OK = 11, K_DCAS_FAIL = 12, K_RANGE_W = 13, K_RANGE_R = 14,
   K_RET = 90, K_EV = 91,
-  K_AUX = 92   /* monitor-only observation (929): never a scheduling point, stripped before the lock-step comparison */
+  K_AUX = 97   /* monitor-only observation (979): never a scheduling point, stripped before the lock-step comparison */
 };
 
 /* trace kind = kind*10 + memory order (0 relaxed,1 consume,2 acquire,
